@@ -84,6 +84,7 @@ def episodes(prop, tier, seed):
         out["big-faults"] = (g.c17_big_faults(seed + 2, n=100000 if q else 200000), "verif")
         out["sharded-dups"] = (g.c17_sharded_dups(seed + 5, big=() if q else (800000,)), "verif")
         out["dup-ranks"] = (g.c17_dup_ranks(seed + 6, thin=q), "verif")
+        out["coarse-sig-dups"] = (g.c17_coarse_sig_dups(seed + 9), "verif")
         out["heavy-dups"] = (g.c17_heavy_dups(seed + 8, copies=(2000,) if q else (600, 2000, 30000)), "verif")
         out["line-faults"] = (g.c17_line_faults(seed + 7, thin=q), "verif")
         if not q:
